@@ -207,6 +207,8 @@ pub assume_specification[ <Composer as core::ops::Index<Witness>>::index ](c: &C
                 " && wits(*final(self)).subrange(0, wits(*old(self)).len() as int) == wits(*old(self))",
                 "s.q(3) != 0 ==> (s.q(3) * wits(*final(self))[wits(*old(self)).len() as int] + eo_x(*old(self), s)) % R() == 0",
                 "s.q(3) != 0 ==> gates(*final(self)) == gates(*old(self)).push(GateV { q_arith: 1, c: wits(*old(self)).len(), ..gate_ext(s) })",
+                # q_O == -1 (gate_add / gate_mul): the output witness holds x itself
+                "s.q(3) == neg1() ==> wits(*final(self)) == wits(*old(self)).push(eo_x(*old(self), s))",
                 "pis(*final(self)) == pis_after(pis(*old(self)), gates(*old(self)).len(), s)",
             ])
     f.at_body_start("proof { field_obeys(); } broadcast use field_axioms;")
@@ -224,9 +226,58 @@ pub assume_specification[ <Composer as core::ops::Index<Witness>>::index ](c: &C
     assert(s.q(3) != 0 ==> c.is_some() && md(s.q(3) * cv(c.unwrap()) + cv(x)) == 0);
     assert(s.q(3) == 0 ==> c.is_none());
 }""")
+    f.before_tail("""proof {
+    if s.q(3) == neg1() {
+        let n = wits(*old(self)).len() as int;
+        lemma_md_range(s.q(0)); 
+        lemma_out_unique_minus_one(wits(*self)[n], eo_x(*old(self), s));
+        assert(wits(*self) =~= wits(*old(self)).push(eo_x(*old(self), s)));
+    }
+}""")
     f.replace("const ONE: BlsScalar = BlsScalar::one();", "exec const ONE: BlsScalar ensures cv(ONE) == 1 { BlsScalar::one() }",
               rule="D8 (const => exec const, initialiser verbatim, value verified)")
     f.cut_scalar_const("MINUS_ONE", -1, "neg1()")
     f.replace("let output = c.map(|c| self.append_witness(c));",
               "let output = match c { Some(c) => Some(self.append_witness(c)), None => None };",
               rule="D9 (Option::map with a &mut-capturing closure => its defining match)")
+
+    ROWPI = "pis(*final(self)) == pis(*old(self))"
+    # ---- gate_add / gate_mul: force q_O = -1, so the returned witness is  x  itself
+    for name in ["gate_add", "gate_mul"]:
+        f = m.fn("Composer::" + name)
+        f.verus("composer.Composer::" + name, ret="r", requires=["valid_constraint(*old(self), s)"],
+                ensures=["r.idx() == wits(*old(self)).len()",
+                         "wits(*final(self)) == wits(*old(self)).push(eo_x(*old(self), s))",
+                         "gates(*final(self)) == gates(*old(self)).push(GateV { q_arith: 1, q_o: neg1(), c: wits(*old(self)).len(), ..gate_ext(s) })",
+                         "pis(*final(self)) == pis_after(pis(*old(self)), gates(*old(self)).len(), s)"])
+        f.at_body_start("proof { field_obeys(); } broadcast use field_axioms;")
+    # ---- assert_equal(a, b):  a - b = 0
+    f = m.fn("Composer::assert_equal")
+    f.verus("composer.Composer::assert_equal", requires=[],
+            ensures=["gates(*final(self)) == gates(*old(self)).push(arith_row(0, 1, neg1(), 0, 0, 0, a.idx(), b.idx(), 0, 0))",
+                     "wits(*final(self)) == wits(*old(self))", ROWPI])
+    f.at_body_start("proof { field_obeys(); } broadcast use field_axioms;")
+    # ---- assert_equal_constant(a, k, pi):  -a + k (+ pi) = 0
+    f = m.fn("Composer::assert_equal_constant")
+    f.verus("composer.Composer::assert_equal_constant", requires=["<C as IntoSpec<BlsScalar>>::obeys_into_spec()"],
+            ensures=["gates(*final(self)) == gates(*old(self)).push(arith_row(0, neg1(), 0, 0, 0, cv(constant.into_spec()), a.idx(), 0, 0, 0))",
+                     "wits(*final(self)) == wits(*old(self))",
+                     "pis(*final(self)) == (if public.is_some() { pis(*old(self)).insert(gates(*old(self)).len(), cv(public.unwrap())) } else { pis(*old(self)) })"])
+    f.at_body_start("proof { field_obeys(); } broadcast use field_axioms;")
+    f.replace("public.map(|p| constraint.public(p)).unwrap_or(constraint)",
+              "match public { Some(p) => constraint.public(p), None => constraint }",
+              rule="D9 (Option::map(closure).unwrap_or(d) => its defining match)")
+    # ---- append_constant(k): fresh witness with value k, pinned by a row
+    f = m.fn("Composer::append_constant")
+    f.verus("composer.Composer::append_constant", ret="r", requires=["<C as IntoSpec<BlsScalar>>::obeys_into_spec()"],
+            ensures=["r.idx() == wits(*old(self)).len()", "wits(*final(self)) == wits(*old(self)).push(cv(constant.into_spec()))",
+                     "gates(*final(self)) == gates(*old(self)).push(arith_row(0, neg1(), 0, 0, 0, cv(constant.into_spec()), wits(*old(self)).len(), 0, 0, 0))",
+                     ROWPI])
+    f.at_body_start("proof { field_obeys(); } broadcast use field_axioms;")
+    # ---- append_public(v): fresh witness with value v, row  -a + PI = 0  with PI = v registered at this row
+    f = m.fn("Composer::append_public")
+    f.verus("composer.Composer::append_public", ret="r", requires=["<P as IntoSpec<BlsScalar>>::obeys_into_spec()"],
+            ensures=["r.idx() == wits(*old(self)).len()", "wits(*final(self)) == wits(*old(self)).push(cv(public.into_spec()))",
+                     "gates(*final(self)) == gates(*old(self)).push(arith_row(0, neg1(), 0, 0, 0, 0, wits(*old(self)).len(), 0, 0, 0))",
+                     "pis(*final(self)) == pis(*old(self)).insert(gates(*old(self)).len(), cv(public.into_spec()))"])
+    f.at_body_start("proof { field_obeys(); } broadcast use field_axioms;")
